@@ -308,7 +308,8 @@ class C14(Check):
             "(empty, length 1, ASCII and multi-byte text, blanks, digit / sign / 0x / 0b / hex / exponent forms, extreme decimal strings) x "
             "offsets {-1, 0, 1, 2, len-1, len, len+1}, 7 patterns, radices {1, 2, 10, 16, 36, 37}; every number method (to_int, to_bigint, "
             "to_byte, to_float, abs, pow, powf, sqrt, floor, ceil, round, ipart, fpart, to_str, to_ascii) x boundary values of each kind x "
-            "exponents {-1, 0, 1, 2, 31, 40, 127}.  Every cell is executed; the reference implementation is written per method.")
+            "exponents {-1, 0, 1, 2, 31, 40, 127}.  Every cell is executed; the reference implementation is written per method.  "
+            "Pairs: neighbouring cells of the tables are also evaluated one after the other in ONE program (each in its own function); the second must print and end as it does alone.")
     assumptions = ["string offsets of len / substring / index_of / insert / delete / split are UTF-8 byte offsets, s[i] is by character "
                    "(the repository's tests say so); an offset that is not a character boundary or is out of range is outside the domain",
                    "conversions are in-domain iff the exact (truncated) value is representable in the target kind; IEEE results (inf, NaN) "
@@ -321,11 +322,14 @@ class C14(Check):
         nc = [("n",) + c[:4] + (c[4],) for c in num_cases()]
         n0 = [(c[0], c[1], c[2], c[3], c[4]) for c in nc]
         s0 = [(c[0], c[1], c[2], c[3]) for c in sc]
-        return [("L0-number-methods", n0), ("L1-string-methods", s0),
+        pairs = [("pair", a, b) for cs in (n0, s0) for a, b in zip(cs, cs[1:])] + [("pair", b, a) for cs in (n0, s0) for a, b in list(zip(cs, cs[1:]))[::3]]
+        return [("L0-number-methods", n0), ("L1-string-methods", s0), ("Lp-pairs-of-neighbouring-cells-in-one-program", pairs if tier == "thorough" else pairs[::2]),
                 ("L2-number-methods-inside-a-function", [c + ("@fn",) for c in n0]),
                 ("L3-string-methods-inside-a-function", [c + ("@fn",) for c in s0])]
 
     def describe(self, case):
+        if case[0] == "pair":
+            return {"first": self.describe(case[1]), "then": self.describe(case[2])}
         if case[0] == "s":
             return {"receiver": case[1], "method": case[2], "args": list(case[3])}
         return {"kind": case[1], "receiver": repr(case[2]), "method": case[3], "args": list(case[4])}
@@ -353,10 +357,42 @@ class C14(Check):
             C14._cache = t
         return C14._cache
 
+    def run_pair(self, case):
+        """two cells one after the other in ONE program (each in a function of its own): what the second prints and how it ends must be what it
+        prints and how it ends on its own - a built-in keeps nothing from one call to the next"""
+        _, c1, c2 = case
+        l1, l2 = self.cell_lines(c1)[0], self.cell_lines(c2)[0]
+
+        def fn(name, ls):
+            return [f"{name} = fn() {{"] + ["\t" + l for l in ls] + ["}", f"{name}()"]
+        env = {"MSCRIPT_VERIF_TYPED_PRINT": "1"}
+        r1 = driver.run_ms("\n".join(fn("cell", l1)) + "\n", env=env)
+        if r1.exit != 0:
+            return {"outcome": "pair-first-fails", "nontrivial": False, "tags": ["pair-skip"]}
+        r2 = driver.run_ms("\n".join(fn("cell", l2)) + "\n", env=env)
+        if driver.compile_rejected(r2):
+            return {"outcome": "pair-second-rejected", "nontrivial": False, "tags": ["pair-skip"]}
+        src = "\n".join(fn("cell", l1) + fn("cellb", l2)) + "\n"
+        rp = driver.run_ms(src, env=env)
+        viol = []
+        want = r1.lines() + r2.lines()
+        if rp.lines() != want or (rp.exit == 0) != (r2.exit == 0):
+            d1, d2 = self.describe(c1), self.describe(c2)
+            viol.append({"sig": {"kind": "context-dependent", "method": d2["method"], "rkind": d2.get("kind", "str"), "after": d1["method"]},
+                         "what": f"{d2} evaluated after {d1} in one program: alone it prints {r2.lines()} (exit {r2.exit}), after the other cell {rp.lines()[len(r1.lines()):]} (exit {rp.exit})",
+                         "detail": {"files": {"x.ms": src}, "res": rp.brief(), "alone": r2.brief()}})
+        return {"outcome": "pair-ok" + ("-DIFF" if viol else ""), "viol": viol, "nontrivial": True, "tags": ["pair"]}
+
     def run_case(self, case):
+        if case[0] == "pair":
+            return self.run_pair(case)
         infn = case[-1] == "@fn"
         if infn:
             case = case[:-1]
+        lines, expr, e = self.cell_lines(case)
+        return self.judge(case, infn, lines, expr, e)
+
+    def cell_lines(self, case):
         key = case if case[0] == "s" else ("n", case[1], repr(case[2]), case[3], case[4])
         expr, e = self.table()[key]
         lines = []
@@ -389,6 +425,9 @@ class C14(Check):
                 lines += N.construct("float", case[4][0], "fe", "zf")
         lines.append('print "ready"')
         lines.append(f"print {expr}")
+        return lines, expr, e
+
+    def judge(self, case, infn, lines, expr, e):
         if infn:
             # the same cell with receiver, arguments and call inside one function body (locals instead of module variables)
             lines = ["cell = fn() {"] + ["\t" + l for l in lines] + ["}", "cell()"]
